@@ -31,6 +31,8 @@ EXPLANATION = (
     ' R07.6: the reader side of the smooth shorthand - C01 R01.5 (T/S reflect the previous control point only'
     ' after a curve of the same degree) - runs here because svg_d writes T for a quadratic after a'
     ' non-quadratic whenever its control equals its start.'
+    ' R07.3: is_smooth_from decides the shorthand by point equality; a comparison against a numeric tolerance'
+    ' coarser than the 12 digits coordinates are written with is a finding.'
 )
 TECHNIQUE = (
     "static analysis (no execution): writer followed by partial evaluation per (mode, form) and compared, operand by operand, with the reader table derived from the lexer summaries and the builder summaries; format-conversion precision lint"
